@@ -100,4 +100,10 @@ CLAIMS = {
         note="The reference tokenisation is the documented one (first token after leading blanks and tabs); exotic separators accept both outcomes so the check cannot alarm on them.",
         technique="property-based testing (rapid): two-sided oracle (must-drop / must-keep) on the written backend section",
     ),
+    "C17": dict(
+        text="The signer's issue/skip/store decision is checked on generated certificate states against an independent reference (expiry window, SAN coverage, client outcomes); the acme work queue is checked on generated ingress histories through the real converters and AcmeUpdate: adds and removes per reconciliation must equal the difference of the storages the cluster asks for. A defect (domain added in place to a shared storage) was repaired in /repo.",
+        design_ref="DESIGN.md section 3, C17",
+        note="The acme protocol client and the challenge server are outside (client is a stub); leader election is a stub flag; the hooked Services (real ReconcileIngress) is never leader, so acme histories run through ctlsim's mirror of ReconcileIngress.",
+        technique="property-based testing (rapid): decision-table style oracle for the signer; stateful model (set difference of wanted storages) for the queue",
+    ),
 }
